@@ -383,7 +383,7 @@ func init() {
 				sw := &c.Sweeper
 				sw.Enabled = true
 				sw.RetentionDays = pick(t, "cfg-retention", float32(15.0/86400), float32(60.0/86400), 0, 0.5, 370)
-				sw.RetentionLoadCutoffDuration = pick(t, "cfg-loadcutoff", 0, -time.Second, 2*time.Second, 30*time.Second, 1000*time.Hour)
+				sw.RetentionLoadCutoffDuration = pick(t, "cfg-loadcutoff", 0, -time.Second, 2*time.Second, 30*time.Second, 1000*time.Hour, -30*time.Second, -1000*time.Hour)
 				sw.FirstInterval = pick(t, "cfg-sw-first", 3*time.Second, 10*time.Second)
 				sw.Interval = pick(t, "cfg-sw-int", 5*time.Second, 20*time.Second)
 				sw.LockDuration = 50 * time.Millisecond
